@@ -6,10 +6,12 @@ package reference
 import (
 	"context"
 	"errors"
+	"fmt"
 	"strings"
 
 	"github.com/hashicorp/hcl-lang/schema"
 	"github.com/hashicorp/hcl/v2"
+	"github.com/zclconf/go-cty/cty"
 )
 
 type Targets []Target
@@ -32,8 +34,34 @@ func (r Targets) Len() int {
 }
 
 func (r Targets) Less(i, j int) bool {
-	return r[i].LocalAddr.String() < r[j].LocalAddr.String() ||
-		r[i].Addr.String() < r[j].Addr.String()
+	// The order has to be a strict weak order that does not depend on the
+	// order in which the targets were collected (they are gathered by ranging
+	// over maps): compare the addresses lexicographically and break ties by
+	// position and the remaining identifying fields.
+	a, b := r[i], r[j]
+	if la, lb := a.LocalAddr.String(), b.LocalAddr.String(); la != lb {
+		return la < lb
+	}
+	if aa, ab := a.Addr.String(), b.Addr.String(); aa != ab {
+		return aa < ab
+	}
+	return targetTieBreak(a) < targetTieBreak(b)
+}
+
+func targetTieBreak(t Target) string {
+	key := ""
+	for _, rng := range []*hcl.Range{t.RangePtr, t.DefRangePtr, t.TargetableFromRangePtr} {
+		if rng == nil {
+			key += "-|"
+			continue
+		}
+		key += fmt.Sprintf("%s:%010d:%010d|", rng.Filename, rng.Start.Byte, rng.End.Byte)
+	}
+	typ := ""
+	if t.Type != cty.NilType {
+		typ = t.Type.GoString()
+	}
+	return key + string(t.ScopeId) + "|" + typ + "|" + t.Name
 }
 
 func (r Targets) Swap(i, j int) {
